@@ -143,7 +143,7 @@ def gen_pack(tier, rng):
 
 def gen_cases(tier, rng):
     yield from gen_relay()
-    n = 120 if tier == "quick" else 3000
+    n = 120 if tier == "quick" else 20000
     for _ in range(n):
         cfg = rng.choice(["-", "-", "static=1"])
         yield Case(line(rand_relay(rng, rng.choice([8, 14, 22])), cfg), cls="random")
